@@ -8,12 +8,12 @@ from gym_gridverse.grid_object import (Box, Door, Floor, Key, MovingObstacle,
 from ..runner import Obligation
 from ..stubs import SIGMA_2C, SIGMA_FULL, SymRng, lazy_state, pre_held, same_object
 from ..symx import sym_and
-from .common import (ACTIONS, CHAINS, SINGLE, TURNS, components, holdable,
+from .common import (ACTIONS, CHAINS, SINGLE, TURNS, components, held_touched, holdable,
                      post_cells, rot, shapes, transition)
 
 PROPERTY = 'C09'
 LEVEL = 'other'
-SCOPE = ('every built-in transition function and the shipped chains, one step from a lazily symbolic state: '
+SCOPE = ('every built-in transition function and the shipped chains (in place, and through transition_with_copy as functional_step does), one step from a lazily symbolic state: '
          'multiset conservation, no duplicated instance, frame rule (which cell may change and how), exact pick/drop/swap oracle')
 BOUNDS = {
     'quick': dict(shapes='all HxW with 1<=H,W<=3 (move_obstacles/teleport: H*W<=3... see C11 for their layouts)',
@@ -46,7 +46,7 @@ def instances(o, acc):
         instances(o.content, acc)
 
 
-def mk(fname, H, W, sigma, held_sigma=None):
+def mk(fname, H, W, sigma, held_sigma=None, via_copy=False):
     f = transition(fname)
     comps = components(fname)
 
@@ -54,9 +54,15 @@ def mk(fname, H, W, sigma, held_sigma=None):
         state, world = lazy_state(sx, H, W, sigma, held_sigma=held_sigma)
         a = sx.choice('a', ACTIONS)
         py, px, o = state.agent.position.y, state.agent.position.x, state.agent.orientation
-        f(state, a, rng=SymRng(sx))
+        if via_copy:  # the non-in-place path used by GridWorld.functional_step: copy, then transform the copy
+            from gym_gridverse.envs.transition_functions import transition_with_copy
+            inp = state
+            state = transition_with_copy(f, inp, a, rng=SymRng(sx))
+            sx.check(not inp.grid.objects.writes, 'input-not-written')
+        else:
+            f(state, a, rng=SymRng(sx))
         cells = post_cells(state)
-        touched_held = state.agent.held_touched()
+        touched_held = held_touched(state)
         # front cell of the PRE pose (for ACTUATE / PICK_N_DROP no earlier component of a chain changes the pose)
         dy, dx = rot(TURNS[o], -1, 0)
         fy, fx = py + dy, px + dx
@@ -104,6 +110,8 @@ def mk(fname, H, W, sigma, held_sigma=None):
             instances(cells[k], inst)
         if touched_held and h1 is not None:
             instances(h1, inst)
+        # identity matters for objects that carry mutable state (doors, boxes); stateless objects are compared by value above
+        inst = [i for i in inst if isinstance(i, (Door, Box))]
         sx.check(len({id(i) for i in inst}) == len(inst), 'no-duplicate-instance')
 
         # ---- frame rule: which cells may differ, and how
@@ -166,4 +174,10 @@ def obligations(tier):
                 hs = []
             obs.append(Obligation(f'{fname}-{H}x{W}', mk(fname, H, W, s, hs),
                                   dict(function=fname, H=H, W=W, alphabet=[e[0] for e in s] if scan else len(s))))
+    # the same oracle through transition_with_copy (what functional_step does): objects must survive the copy as well
+    boxes = [e for e in sigma if e[0] in ('Floor', 'Wall', 'Key(YELLOW)', 'Box(Floor)', 'Box(Key(YELLOW))', 'Box(Box(Floor))', 'Door(CLOSED,YELLOW)')]
+    for fname in ['chain[move,turn,actuate_door,actuate_box,pickndrop]', 'pickndrop', 'actuate_box']:
+        for (H, W) in ([(1, 2), (2, 2), (1, 3)] if tier == 'quick' else [(1, 2), (2, 2), (1, 3), (2, 3)]):
+            obs.append(Obligation(f'via-copy-{fname}-{H}x{W}', mk(fname, H, W, boxes, None, via_copy=True),
+                                  dict(function=fname, H=H, W=W, path='transition_with_copy', alphabet=[e[0] for e in boxes])))
     return obs
